@@ -97,6 +97,25 @@ func (p propC11) Gen(r *simrt.Rand, idx int, tier string) any {
 	if idx%9 == 2 {
 		c.Client = "simgrpc" // keep the inline share small: C01-C03 cover it
 	}
+	if idx%16 == 1 || idx%16 == 10 {
+		// many long keys: the key listing (one unary response carrying every key) and the key echoed
+		// in a streamed read's header grow far beyond one content chunk
+		n := 34 + r.Intn(12)
+		id := uint64(900000)
+		var fat []string
+		for j := 0; j < n; j++ {
+			k := fmt.Sprintf("fat-%02d-", j) + strings.Repeat(string(rune('a'+j%26)), 900+r.Intn(200))
+			fat = append(fat, k)
+			id++
+			c.Ops = append(c.Ops, Op{K: "set", Key: k, ID: id, Size: 9 + r.Intn(40)})
+			if j%8 == 7 {
+				c.Ops = append(c.Ops, Op{K: "keys"})
+			}
+		}
+		c.Ops = append(c.Ops, Op{K: "keys"}, Op{K: "getr", Key: fat[r.Intn(n)]}, Op{K: "del", Key: fat[r.Intn(n)]}, Op{K: "keys"})
+		c.ReadBack = "auto"
+		c.Keys = append(c.Keys, fat[0], fat[n-1])
+	}
 	return C11Case{Seq: &c}
 }
 
